@@ -50,9 +50,38 @@ Theorem C13_paging_complete : forall pre delim mk objs next,
 Proof. exact vwalk_complete. Qed.
 Print Assumptions C13_paging_complete.
 
+(* every prefix and every marker pair get a listing as answer, never an error: the page of the
+   client walk from that marker (the memory backend used to answer 500 InternalError when the
+   key marker did not match the prefix) *)
+Theorem C13_any_marker_any_prefix_answered : forall s b bk pre delim km vm mk,
+  get_bucket s b = Some bk ->
+  exists show, list_versions s b pre delim km vm mk =
+               VLOk (vpage pre delim mk (b_objs bk) km (match km with [] => None | _ => vm end)) show.
+Proof. exact list_versions_answers. Qed.
+Print Assumptions C13_any_marker_any_prefix_answered.
+
+(* ... and when the marker's key is not itself listed under the prefix / delimiter (it lies
+   outside the prefix or inside a common prefix), nothing is filtered: the page is a prefix, of
+   at most max-keys entries, of every listed version of the keys from the marker on, and all of
+   them when it is not truncated *)
+Theorem C13_marker_outside_prefix_resumes : forall pre delim km vm mk objs,
+  1 <= mk -> prefix_match pre delim km <> MContent -> km <> [] ->
+  exists l1 l2, all_versions pre delim (sm_seek km objs) = l1 ++ l2 /\
+    vl_entries (vpage pre delim mk objs km vm) = l1 /\ Z.of_nat (length l1) <= mk /\
+    (vl_truncated (vpage pre delim mk objs km vm) = false -> l2 = []).
+Proof. exact vpage_marker_unlisted. Qed.
+Print Assumptions C13_marker_outside_prefix_resumes.
+
 (* non-vacuity: two versions and a delete marker of one key, paged one entry at a time *)
 Definition c13_v (id : N) (mk : bool) : vdata := {| vd_vid := id; vd_null := false; vd_marker := mk; vd_body := [id]; vd_meta := [] |}.
 Definition c13_objs : list (list N * obj) := [([107]%N, {| o_data := Some (c13_v 3 true); o_vers := [c13_v 1 false; c13_v 2 false] |})].
 Example C13_ex :
   option_map (map (fun r => map ve_vid (vl_entries r))) (vwalk 4 [] None 1 c13_objs [] None) = Some [[1%N]; [2%N]; [3%N]].
+Proof. vm_compute. reflexivity. Qed.
+
+(* the request that used to answer 500: prefix "k", key marker "a" (a key that exists in c13_objs2) *)
+Definition c13_objs2 : list (list N * obj) :=
+  [([97]%N, {| o_data := Some (c13_v 1 false); o_vers := [] |}); ([107]%N, {| o_data := Some (c13_v 3 true); o_vers := [c13_v 2 false] |})].
+Example C13_ex_marker_outside_prefix :
+  map ve_vid (vl_entries (vpage [107]%N None 5 c13_objs2 [97]%N (Some 1%N))) = [2%N; 3%N].
 Proof. vm_compute. reflexivity. Qed.
